@@ -3,7 +3,7 @@ from __future__ import annotations
 
 import ast
 
-from ..effects import (module_state_writes, class_state_writes, mutated_params, unordered_loops, commutative_body, ambient_uses,
+from ..effects import (inplace_on_shared, process_wide_caches, module_state_writes, class_state_writes, mutated_params, unordered_loops, commutative_body, ambient_uses,
                        open_calls, is_fresh_expr, local_names)
 from ..libsum import parse_lib
 from ..model import Model, Mod, dotted_name, src, DEAD_MODULES, member_kind
@@ -65,6 +65,15 @@ def scale(a, f):
 def log(p):
     with open(p, "a") as fp:
         fp.write("x")
+def rescale(base, prop):
+    q = units.Quantity(getattr(base, prop), "GPa")
+    q.ito("kbar")
+    return q.magnitude
+import functools
+@functools.lru_cache(maxsize=None)
+def load(path):
+    with open(path) as fp:
+        return [l for l in fp]
 '''
 
 
@@ -96,6 +105,15 @@ def r_module_state(ctx, model):
             ctx.violation(f"{q}:{desc.split(' (')[0]}", Where(mod.rel, q, getattr(node, "lineno", 0)), expected="no store into module-level / class-level / default-argument state",
                           found=desc, explanation=f"{q} writes {desc}: state shared by every calculation in the process, so a result can "
                                                   f"depend on calculations performed earlier", instance=f"{mname}:{q}")
+    ctl_cache = process_wide_caches(fx)
+    if len(ctl_cache) != 1:
+        raise AnalysisError("positive control for process-wide caches failed")
+    for mname, mod in live_modules(model):
+        for q, node, desc in process_wide_caches(mod):
+            total += 1
+            ctx.violation(f"{q}:process-wide-cache", Where(mod.rel, q, node.lineno), expected="no memo that outlives a calculation",
+                          found=desc, explanation=f"{q} is memoised for the life of the process ({desc}): a later calculation in the same process "
+                                                  f"gets what an earlier one computed (or modified), whatever the files contain now", instance=f"{mname}:{q}:cache")
     if total == 0:
         ctx.ok(f"no write to module-level, class-level or default-argument state in {n} functions", Where("cij", "", 0), f"{n} functions")
     # the one imported mutable that is updated must be copied first
@@ -200,7 +218,23 @@ def r_param_mutation(ctx, model):
                                   expected="a plain instance container being built", found=f"self.{root.attr} is a {kind}" if kind else "instance attribute",
                                   explanation=f"{q} stores into the value returned by the (cached) property {root.attr}: later reads of that result differ",
                                   key=f"{q}:self.{root.attr}")
-    ctx.floor("stores through self.<attr>[...] in cij.core", n, 3)
+    ctx.floor("stores through self.<attr>[...] in cij.core", n, 1)
+    # in-place operations (pint .ito(), ndarray.sort/fill, augmented assignment) on values obtained from attributes / getattr
+    fxm = fixture_mod()
+    if not inplace_on_shared(fxm):
+        raise AnalysisError("positive control for in-place operations on shared values failed")
+    hits = 0
+    for mname, mod in live_modules(model):
+        if not (mname.startswith("cij.core") or mname.startswith("cij.io.output") or mname.startswith("cij.util")):
+            continue
+        for q, node, desc in inplace_on_shared(mod):
+            hits += 1
+            ctx.violation(f"{q}:inplace:{desc.split(' on ')[0]}", Where(mod.rel, q, node.lineno), expected="a copy (or an out-of-place operation)",
+                          found=desc, explanation=f"{q} modifies in place a value it obtained from an attribute / property of another object ({desc}): the "
+                                                  f"owner's (cached) result changes, so what is read or written later depends on what was written before",
+                          instance=f"{mname}:{q}:inplace")
+    if hits == 0:
+        ctx.ok("no in-place operation on values obtained from attributes in cij.core / cij.io.output / cij.util", Where("cij", "", 0), "0 sites")
 
 
 def r_unordered(ctx, model):
@@ -276,7 +310,7 @@ def r_cwd(ctx, model):
 
 def r_files(ctx, model):
     fx = fixture_mod()
-    if [m for _, _, m in open_calls(fx)] != ["a"]:
+    if sorted(m for _, _, m in open_calls(fx)) != ["a", "r"]:
         raise AnalysisError("positive control for append-mode open failed")
     n = 0
     for mname, mod in live_modules(model):
